@@ -624,6 +624,13 @@ fn main() {
             calls.push(call_b("chmod_b", p, "", 0, 0o604, "", "f"));
             calls.push(call_b("chmod_b", p, "", 0o711, 0, "", "aF"));
             calls.push(call_b("chmod_b", p, "", 0o711, 0, "", "aR"));
+            // chown to other ids (needs root): on the entry only / recursively / following links
+            if uid == 0 {
+                calls.push(call_b("chown_b", p, "", 5, 7, "", "ugR"));
+                calls.push(call_b("chown_b", p, "", 5, 7, "", "ug"));
+                calls.push(call_b("chown_b", p, "", 5, 0, "", "uF"));
+                calls.push(call_m("chown", p, 6, 8));
+            }
         }
     }
     let std = Stdfs::new();
